@@ -733,6 +733,23 @@ Proof.
   destruct (druns_started_stopped _ _ _ u Hd W_init (or_intror Hu)) as [R|R]; [rewrite Ho in R; destruct R | exact R].
 Qed.
 
+Theorem docs_structure_all d paus stag rec evs :
+  let r := run0 d paus stag rec evs in
+  (forall l1 u l2, docs_of (snd r) = l1 ++ DStart u :: l2 ->
+      (forall x, In x l1 -> run_of x <> u) /\ (forall x, In x l2 -> is_start x = true -> run_of x <> u)) /\
+  (forall l1 u xs rs num l2, docs_of (snd r) = l1 ++ DStop u xs rs num :: l2 -> forall x, In x l2 -> run_of x <> u) /\
+  (forall l1 x l2, docs_of (snd r) = l1 ++ x :: l2 -> is_start x = false -> In (DStart (run_of x)) l1) /\
+  (bundlers P D (fst r) = [] ->
+     forall u, In (DStart u) (docs_of (snd r)) -> exists xs rs num, In (DStop u xs rs num) (docs_of (snd r))).
+Proof.
+  intros r. repeat split.
+  - eapply docs_start_first; eassumption.
+  - eapply docs_start_first; eassumption.
+  - eapply docs_stop_last.
+  - eapply docs_inside_run.
+  - apply docs_all_stopped.
+Qed.
+
 (* the state invariant this file does not prove (Proofs/RE_Inv.v, another builder): an idle engine
    has no bundler left, unless the model ran out of fuel (reported as OBad 1) *)
 Definition need_inv_idle_no_bundlers : Prop :=
